@@ -20,7 +20,9 @@
 typedef struct Error { int _e; } Error;
 static bool Error_test(Error *e, bool pr, int err) { return (e->_e = pr ? err : 0); }      /* Error::test (src/inc/Error.h) */
 enum { E_OUTOFMEM = 1, E_BADRANGE = 2 };
-typedef struct Pass { uint16 *m_cols; uint16 m_numGlyphs, m_numColumns; } Pass;
+typedef struct Pass {
+/*@extract {'kind':'members', 'file':'src/inc/Pass.h', 'scope': r'class Pass\s*\{', 'names':['m_cols','m_numGlyphs','m_numColumns']}@*/
+} Pass;
 bool nondet_bool(void);
 static uint16 *gralloc_uint16(size_t n) { return nondet_bool() ? (uint16 *)0 : (uint16 *)malloc(n * sizeof(uint16)); }
 /*@extract {'file':'src/Pass.cpp', 'sig': r'bool Pass::readRanges\(const byte \* ranges, size_t num_ranges, Error &e\)', 'emit':'bool Pass_readRanges(Pass *self, const byte *ranges, size_t num_ranges, Error *e)',
@@ -30,7 +32,10 @@ static uint16 *gralloc_uint16(size_t n) { return nondet_bool() ? (uint16 *)0 : (
 /* ------------------------------------------------------------------ NameTable::getName (record selection loop cut: it only picks bestLang) */
 typedef struct NameRecord { uint16 platform_id, platform_specific_id, language_id, name_id, length, offset; } NameRecord;
 typedef struct FontNames { uint16 format, count, string_offset; NameRecord name_record[1]; } FontNames;
-typedef struct NameTable { uint16 m_platformOffset, m_platformLastRecord, m_nameDataLength; const FontNames *m_table; const uint8 *m_nameData; } NameTable;
+typedef struct NameTable {
+/*@extract {'kind':'members', 'file':'src/inc/NameTable.h', 'scope': r'class NameTable\s*\{', 'names':['m_platformOffset','m_platformLastRecord','m_nameDataLength','m_table','m_nameData'],
+   'subs':[[r'TtfUtil::Sfnt::', '', 0]]}@*/
+} NameTable;
 typedef uint16 utf16_codeunit_t;
 size_t g_alloc_units;
 static utf16_codeunit_t *gralloc_utf16(size_t n) { g_alloc_units = n; return nondet_bool() ? (utf16_codeunit_t *)0 : (utf16_codeunit_t *)malloc(n * sizeof(utf16_codeunit_t)); }
